@@ -7,7 +7,10 @@ PROP = dict(
     mc=[dict(module="AnnounceQueue", cfg="MC_AnnounceQueue.cfg")],
     trace=dict(module="AnnounceQueueTrace", cfg="AnnounceQueueTrace.cfg"),
     nontrivial=lambda recs: any(r.get("ev") == "Next" and r.get("res") != "none" for r in recs) and has(recs, "Eject") and has(recs, "Ready"),
-    rule="seeded random histories (Add/Next/Ready/Eject over 5 torrents, 20-60 calls + final drain) on the real QueueImpl; "
+    rule="seeded random histories (Add/Next/Ready/Eject over 5 torrents, 20-60 calls + final drain) on the real QueueImpl; every "
+         "fourth trace is the SYSTEM family: scheduler events (add torrent, announce tick with saturated/unsaturated torrents, announce "
+         "result/error, removal) applied to a real scheduler state whose announce queue is wrapped by a recorder - the scheduler's own "
+         "call stream must be a legal queue history (never Add a queued torrent); "
          "distinct = distinct event sequences; non-trivial = some Next returned a torrent and the history contains Eject and Ready",
     assumptions=["Add(h) is only issued for a torrent not currently queued (documented undefined otherwise)"],
 )
